@@ -138,7 +138,9 @@ EvCompressed ==
                  "distance_le_declared_window")
            \o If(valid /\ Prop = "C12" => ~acc.crosscut, "no_match_across_full_flush")
            \o If(cfg.zlib = (Rec[cs].zlib), "zlib_framing_as_requested")
-     IN /\ Report(fails, 14)
+           \* the logged calls account for every byte of the stream that was judged
+           \o If(HasF(E, "streamed") => dc.tout = Len(z) /\ dc.tin = E.in_len, "calls_account_for_all_input_and_output")
+     IN /\ Report(fails, 15)
         /\ IF HasF(cfg, "flags") /\ cfg.flags # m.flags
              THEN PrintT(<<"DRIFT", "flags", CaseId, cfg.flags, m.flags>>) ELSE TRUE
   /\ l' = l + 1
@@ -223,7 +225,7 @@ EvDefl ==
 EvDeflEnd ==
   /\ Is("defl_end")
   /\ LET e == E
-         fails == If(~e.misuse => e.ended, "driver_loop_reaches_stream_end")
+         fails == If(~e.misuse => e.ended /\ dc.ended, "driver_loop_reaches_stream_end")
      IN Report(fails, 1)
   /\ l' = l + 1
   /\ Keep(<<acc, cs, ip, cid, dc, ds, ss, cc, seen>>)
